@@ -25,10 +25,10 @@ impl Monitor for C08 {
         "cases = seeded universes with conflicts below the direct requirements (constrains-heavy and layered families), root requirements restricted to single version sets, random activity parameters (so that the VSIDS-like ordering is stressed), sync + async; applicable when a brute-force search finds a valid solution containing the first-ranked candidate of every root requirement simultaneously; then the returned solution must contain all of them. distinct = content hash; non-trivial = distinct applicable case whose search had >= 1 conflict".into()
     }
     fn cases(&self, tier: Tier) -> u64 {
-        tier.pick(40_000, 2_000_000)
+        tier.pick(320_000, 6_400_000)
     }
     fn floor(&self, tier: Tier) -> u64 {
-        tier.pick(300, 15_000)
+        tier.pick(1_200, 12_000)
     }
     fn generate(&self, r: &mut Rng, _tier: Tier, _i: u64) -> SolverCase {
         let (name, mut cfg) = pick_family(r, FAMILIES);
